@@ -98,8 +98,16 @@ func (l *localExecutor) Run(task *Task) {
 	task.Unlock()
 }
 
-func (l *localExecutor) depReaders(ctx context.Context, task *Task) ([]sliceio.Reader, error) {
-	in := make([]sliceio.Reader, 0, len(task.Deps))
+func (l *localExecutor) depReaders(ctx context.Context, task *Task) (in []sliceio.Reader, err error) {
+	// Input combination invokes the user-supplied combiner.
+	defer func() {
+		if e := recover(); e != nil {
+			stack := debug.Stack()
+			err = fmt.Errorf("panic while evaluating slice: %v\n%s", e, string(stack))
+			err = errors.E(err, errors.Fatal)
+		}
+	}()
+	in = make([]sliceio.Reader, 0, len(task.Deps))
 	for _, dep := range task.Deps {
 		reader := new(multiReader)
 		reader.q = make([]sliceio.Reader, dep.NumTask())
